@@ -1,7 +1,7 @@
 ------------------------------ MODULE Opaque ------------------------------
 (* C09 — opaque tags stay opaque.
 
-   A case is a triple (tag, ctx, body):
+   A case is (tag, ctx, opener spelling, closer spelling, body):
      tag   in {nowiki, pre, math, source, syntaxhighlight, timeline}
      body  a sequence of lexemes (atoms of WikiTokens.tla) that contains neither the tag's own
            closer nor the reserved byte 0x7f (atoms DEL, UNIQ)
@@ -14,8 +14,8 @@
                           entities replaced by the character; for pre additionally with
                           <nowiki>..</nowiki> pairs unwrapped (MediaWiki's own <pre> hook does that,
                           mwlib mirrors it in core.py ParseUniq.create_pre -> remove_nowiki_tags)
-     shape                the structure of the document depends on (tag, ctx) only: it is the shape of
-                          the same case with the one-word body <<"a">>  (no link / style / template
+     shape                the structure of the document depends on (tag, ctx, opener spelling) only: it
+                          is the shape of the same case with the one-word body <<"a">>  (no link / style / template
                           expansion / tag node originates inside the region)
      Restored(tag, body)  what protecting and restoring the region (uniq.py replace_tags then
                           replace_uniq) leaves in the text: the region itself, for nowiki without
@@ -26,13 +26,18 @@
 EXTENDS Naturals, Sequences, FiniteSets, TLC, Json
 
 CONSTANTS BodyAlphabet,   \* "opaque" | "structural"
-          MaxBody,        \* bodies of 0..MaxBody lexemes
+          MaxBody,        \* bodies of 0..MaxBody lexemes (tags spelled in lower case)
+          SpellBody,      \* bodies of 0..SpellBody lexemes for the other spellings of the tags
           EmitFrom        \* print cases with Len(body) >= EmitFrom
 
 WT == INSTANCE WikiTokens WITH Alphabet <- "structural", MaxLen <- 0, MaxNest <- 40, EmitFrom <- 1,
                                seq <- <<>>, nest <- 0, peak <- 0
 
 Tags     == {"nowiki", "pre", "math", "source", "syntaxhighlight", "timeline"}
+\* how the opener and the closer are written (tag names are case-insensitive, the opener may carry
+\* attributes, both may carry blanks before ">"); concretised by the harness per tag
+OpenSpellings  == {"lower", "UPPER", "Mixed", "blank", "attr", "UPPERattr"}
+CloseSpellings == {"lower", "UPPER", "Mixed", "blank"}
 Contexts == {"top", "listitem", "tablecell", "bold", "tplarg", "tplbody"}
 
 \* the reduced body alphabet of the quick tier: one lexeme per kind of markup a body could be
@@ -47,16 +52,26 @@ OpaqueBody == {
   "&amp;", "&#65;", "&#x41;", "&lt;", "&bogus;", "&#99999999999;",
   "{{", "}}", "{{{", "}}}", "{{Echo|", "{{!}}",
   "<noinclude>", "</noinclude>", "<includeonly>", "</includeonly>", "<onlyinclude>", "</onlyinclude>",
-  "__TOC__", "NONBMP", "EBAD" }
+  "__TOC__", "NONBMP", "EBAD",
+  \* tags spelled through entities: they are text; ESC_CLOSER is the tag's own closer spelled that way
+  "&lt;nowiki&gt;", "&lt;/nowiki&gt;", "&#60;/nowiki&#62;", "&#x3c;nowiki&#x3e;", "&lt;/pre&gt;", "&lt;ref&gt;",
+  "&lt;b&gt;", "&lt;!--", "--&gt;", "ESC_CLOSER" }
 
 Reserved == {"DEL", "UNIQ"}                     \* contain 0x7f
-Base == IF BodyAlphabet = "opaque" THEN OpaqueBody ELSE WT!Structural
+Base == IF BodyAlphabet = "opaque" THEN OpaqueBody ELSE WT!Structural \cup {"ESC_CLOSER"}
 BodyLex(tag) == (Base \ Reserved) \ {WT!CloseTag(tag)}
 
 \* character entities -> the character they denote (atoms AMP, LT are concretised by the harness)
-EntityValue == [e \in {"&amp;", "&#65;", "&#x41;", "&lt;", "&#xD800;"} |->
+\* (LIT:... atoms are literal text: "LIT:<nowiki>" is the eight characters <nowiki>, never the tag)
+EntityValue == [e \in {"&amp;", "&#65;", "&#x41;", "&lt;", "&#xD800;", "&lt;nowiki&gt;", "&lt;/nowiki&gt;",
+                       "&#60;/nowiki&#62;", "&#x3c;nowiki&#x3e;", "&lt;/pre&gt;", "&lt;ref&gt;", "&lt;b&gt;",
+                       "&lt;!--", "--&gt;", "ESC_CLOSER"} |->
                  CASE e = "&amp;" -> "AMP" [] e = "&#65;" -> "A" [] e = "&#x41;" -> "A" [] e = "&lt;" -> "LT"
-                   [] e = "&#xD800;" -> "SURROGATE"]
+                   [] e = "&#xD800;" -> "SURROGATE"
+                   [] e \in {"&lt;nowiki&gt;", "&#x3c;nowiki&#x3e;"} -> "LIT:<nowiki>"
+                   [] e \in {"&lt;/nowiki&gt;", "&#60;/nowiki&#62;"} -> "LIT:</nowiki>"
+                   [] e = "&lt;/pre&gt;" -> "LIT:</pre>" [] e = "&lt;ref&gt;" -> "LIT:<ref>" [] e = "&lt;b&gt;" -> "LIT:<b>"
+                   [] e = "&lt;!--" -> "LIT:<!--" [] e = "--&gt;" -> "LIT:-->" [] e = "ESC_CLOSER" -> "LIT_CLOSER"]
 \* "&bogus;" names no character and "&#99999999999;" is no code point: both stay as written
 IsEntity(x) == x \in DOMAIN EntityValue
 DecodeEntities(b) == [i \in 1..Len(b) |-> IF IsEntity(b[i]) THEN EntityValue[b[i]] ELSE b[i]]
@@ -81,21 +96,24 @@ Decoded(tag, b) == CASE tag = "nowiki" -> DecodeEntities(b)
                      [] tag = "pre" -> DecodeEntities(Unwrap(b))
                      [] OTHER -> b
 
-Restored(tag, b) == IF tag = "nowiki" THEN b ELSE <<WT!OpenTag(tag)>> \o b \o <<WT!CloseTag(tag)>>
+\* OPEN / CLOSE: the opener and closer exactly as the case spells them
+Restored(tag, b) == IF tag = "nowiki" THEN b ELSE <<"OPEN">> \o b \o <<"CLOSE">>
 
 -----------------------------------------------------------------------------
-VARIABLES tag, ctx, body
-ovars == <<tag, ctx, body>>
+VARIABLES tag, ctx, ospell, cspell, body
+ovars == <<tag, ctx, ospell, cspell, body>>
 
-Init == tag \in Tags /\ ctx \in Contexts /\ body = <<>>
-Extend == /\ Len(body) < MaxBody
+Bound == IF ospell = "lower" /\ cspell = "lower" THEN MaxBody ELSE SpellBody
+Init == tag \in Tags /\ ctx \in Contexts /\ ospell \in OpenSpellings /\ cspell \in CloseSpellings /\ body = <<>>
+Extend == /\ Len(body) < Bound
           /\ \E x \in BodyLex(tag) : body' = Append(body, x)
-          /\ UNCHANGED <<tag, ctx>>
+          /\ UNCHANGED <<tag, ctx, ospell, cspell>>
 Next == Extend
 Spec == Init /\ [][Next]_ovars
 
 -----------------------------------------------------------------------------
-TypeOK == tag \in Tags /\ ctx \in Contexts /\ body \in Seq(BodyLex(tag)) /\ Len(body) <= MaxBody
+TypeOK == /\ tag \in Tags /\ ctx \in Contexts /\ ospell \in OpenSpellings /\ cspell \in CloseSpellings
+          /\ body \in Seq(BodyLex(tag)) /\ Len(body) <= Bound
 \* the quantifier of C09: no own closer, no 0x7f
 InDomain == \A i \in 1..Len(body) : body[i] # WT!CloseTag(tag) /\ body[i] \notin Reserved
 \* laws of the oracle
@@ -107,9 +125,9 @@ OracleLaws ==
   /\ (tag = "nowiki") => Len(d) = Len(body)
   /\ (tag \in {"nowiki", "pre"}) => DecodeEntities(d) = d     \* decoding is idempotent on its own result
   /\ Len(Unwrap(body)) <= Len(body)
-AlphabetOK == OpaqueBody \subseteq WT!Structural /\ {WT!OpenTag(t) : t \in Tags} \cup {WT!CloseTag(t) : t \in Tags} \subseteq OpaqueBody
+AlphabetOK == (OpaqueBody \ {"ESC_CLOSER"}) \subseteq WT!Structural /\ {WT!OpenTag(t) : t \in Tags} \cup {WT!CloseTag(t) : t \in Tags} \subseteq OpaqueBody
 
 EmitCase == (Len(body) >= EmitFrom) =>
-  PrintT("@@" \o ToJson([tag |-> tag, ctx |-> ctx, body |-> body, kind |-> Kind(tag),
+  PrintT("@@" \o ToJson([tag |-> tag, ctx |-> ctx, ospell |-> ospell, cspell |-> cspell, body |-> body, kind |-> Kind(tag),
                          decoded |-> Decoded(tag, body), restored |-> Restored(tag, body)]))
 =============================================================================
